@@ -62,7 +62,9 @@ var c17Kinds = []string{"int", "char", "float", "bool", "string", "ints", "strs"
 	"mixed", "intsplus", "typeobj", "keysi", "keyss",
 	// values of the language's other types (none of them is a value of a declared base, slice, pointer or struct type),
 	// arrays made by map, arrays whose cached type is stale
-	"dur", "fnv", "symv", "listv", "uint", "rawv", "mapints", "mapstrs", "staleints", "staleempty"}
+	"dur", "fnv", "symv", "listv", "uint", "rawv", "mapints", "mapstrs", "staleints", "staleempty",
+	// records that carry the name of a type that is no struct (a record can be given any type name)
+	"recint", "recstr", "recslice", "recptr"}
 
 func typeSrc(t string) string {
 	switch {
@@ -274,6 +276,14 @@ func execC17(body json.RawMessage) *kernel.Result {
 		case "staleints":
 			// ints in an array that was typed as strings while it held strings
 			return `(let [e ["m" "n"]] (type? e) (hset (hash) a: e) (append (append (slice e 2 2) 1) 2))`
+		case "recint":
+			return `(msgmap "int64" (list (quote a) 1))`
+		case "recstr":
+			return `(msgmap "string" (list (quote a) "q"))`
+		case "recslice":
+			return `(msgmap "[]int64" (list (quote a) 1))`
+		case "recptr":
+			return `(msgmap "*int64" (list (quote a) 1))`
 		case "staleempty":
 			// an int in an array that was typed while it was empty
 			return "(let [e []] (type? e) (append e 5))"
@@ -466,7 +476,8 @@ func execC17(body json.RawMessage) *kernel.Result {
 					allFit = false
 				}
 				if op.Op == "decode" {
-					js := map[string]string{"int": "7", "float": "2.5", "bool": "true", "string": `\"s\"`, "ints": "[1, 2]", "strs": `[\"a\", \"b\"]`, "empty": "[]", "nil": "null", "mixed": `[1, \"a\"]`, "keysi": "[5, 6]", "keyss": `[\"k\"]`}[in.Kind]
+					js := map[string]string{"int": "7", "float": "2.5", "bool": "true", "string": `\"s\"`, "ints": "[1, 2]", "strs": `[\"a\", \"b\"]`, "empty": "[]", "nil": "null", "mixed": `[1, \"a\"]`, "keysi": "[5, 6]", "keyss": `[\"k\"]`,
+						"recint": `{\"Atype\":\"int64\", \"a\":1}`, "recstr": `{\"Atype\":\"string\", \"a\":\"q\"}`, "recslice": `{\"Atype\":\"[]int64\", \"a\":1}`}[in.Kind]
 					if strings.HasPrefix(in.Kind, "inst") {
 						// a nested record carrying its own type name; sometimes with a member of the wrong kind / not declared
 						var k int
@@ -711,6 +722,53 @@ func execC17(body json.RawMessage) *kernel.Result {
 			}
 		case "obs":
 			if !checkAll(step, "obs") {
+				return res
+			}
+			// reading a member - also through the conversion functions - is no write; and what a field holds can be
+			// written back into it
+			for key, in := range m.inst {
+				if !in.exists || key[0] != e {
+					continue
+				}
+				h, ok := readInst(key[0], key[1])
+				if !ok {
+					continue
+				}
+				for _, k := range h.KeyOrder {
+					ks, isSym := k.(*zygo.SexpSymbol)
+					if !isSym {
+						continue
+					}
+					before := show(h)
+					for _, conv := range []string{"str", "type?", "int64", "int32", "uint8", "float64", "len", "byte", "uint64", "float32"} {
+						ev(e, fmt.Sprintf("(%s (hget %s %s:))", conv, vname(key[1]), ks.Name()))
+					}
+					res.Probe("member-read-through-conversions")
+					if after := show(h); after != before {
+						fail("R-rejected", "read", "step %d: reading member %s of %s through the conversion functions changed the instance from %s to %s", step, ks.Name(), vname(key[1]), before, after)
+						return res
+					}
+					val, err := h.HashGet(envs[e], k)
+					if err != nil || val == zygo.SexpNull {
+						continue
+					}
+					hasNilElem := false
+					if arr, isArr := val.(*zygo.SexpArray); isArr {
+						for _, x := range arr.Val {
+							if x == zygo.SexpNull {
+								hasNilElem = true // (an array that starts with nil has no type: refused as a whole by design)
+							}
+						}
+					}
+					if t, declared := in.def[ks.Name()]; declared && fits(classifyVal(val), t) && !strings.Contains(t, "S") && !hasNilElem {
+						if o := ev(e, fmt.Sprintf("(hset %s %s: (hget %s %s:))", vname(key[1]), ks.Name(), vname(key[1]), ks.Name())); !o.OK() && !o.Panicked {
+							fail("T-types", "self-write", "step %d: the value that field %s of %s holds is refused when written back into it: %s (instance %s)", step, ks.Name(), vname(key[1]), o, show(h))
+							return res
+						}
+					}
+				}
+			}
+			if !checkAll(step, "obs-after-reads") {
 				return res
 			}
 		}
